@@ -6,7 +6,7 @@ use crate::harness::{Outcome, Prop, Tier};
 use crate::run::{exec_rrss, fnv_str, guarded, parse_rrss, Caught, Limits as RLimits};
 use engine_core::ast::*;
 use engine_core::gen::names;
-use engine_core::gen::poetic::{closed_on_line, literal, string_text, PoeticCfg};
+use engine_core::gen::poetic::{closed_on_line, extreme_literal, literal, string_text, PoeticCfg};
 use engine_core::gen::syntax::{Ctx, Lead, SynCfg, SynGen};
 use engine_core::model::poetic_numeral;
 use engine_core::render::{render, RenderOpts};
@@ -33,6 +33,12 @@ pub enum Case {
 }
 
 const LAYOUT: RenderOpts = RenderOpts { alias: true, case: true, noise: true, comments: true, layout: true, crlf: false };
+
+/// "a few units in the last place": rrss sums digit x 10^k term by term, largest term first; each product and each
+/// partial sum rounds once and the terms fall off geometrically, so the error stays within a few ulp of the sum
+/// whatever the length; the powers 10^k themselves (repeated squaring) are off by up to ~5 ulp for |k| near 300.
+/// Measured over 4M literals incl. 700-digit ones: see the `ulp:` labels in the evidence.
+const TOLERANCE_ULP: u64 = 16;
 
 fn ulp_distance(a: f64, b: f64) -> u64 {
     if a == b {
@@ -131,7 +137,7 @@ fn check_number(dest: &Dest, elems: &[PoeticElem], spelling: &[u32]) -> Result<(
         return Err(Outcome::fail(format!("poetic literal value: printed {} but compute_value() = {}\n{}", printed, computed, src)));
     }
     let exact = !has_point && expected < 9007199254740992.0;
-    let tolerance: u64 = if exact { 0 } else { 4u64.max(digits as u64 + 4) };
+    let tolerance: u64 = if exact { 0 } else { TOLERANCE_ULP };
     let d = ulp_distance(computed, expected);
     if d > tolerance {
         return Err(Outcome::fail(format!(
@@ -162,6 +168,17 @@ fn check_number(dest: &Dest, elems: &[PoeticElem], spelling: &[u32]) -> Result<(
     add(digits > 100, "more_than_100_digits");
     add(exact, "exact_integer");
     add(d > 0, "inexact_by_some_ulp");
+    add(true, match d {
+        0 => "ulp:0",
+        1 => "ulp:1",
+        2..=4 => "ulp:2-4",
+        5..=8 => "ulp:5-8",
+        _ => "ulp:9-16",
+    });
+    add(digits > 308, "more_than_308_digits");
+    add(expected.is_infinite(), "value_overflows_to_infinity");
+    add(expected != 0.0 && expected.abs() < f64::MIN_POSITIVE, "subnormal_value");
+    add(expected == 0.0 && digits > 300, "long_zero");
     add(matches!(dest, Dest::Rock(_)), "rock_like");
     add(matches!(dest, Dest::Pronoun(_)), "pronoun_dest");
     add(matches!(dest, Dest::Element(_)), "element_dest");
@@ -229,7 +246,7 @@ impl Prop for C11 {
     }
     fn rule(&self) -> String {
         "numbers: element lists of 1-300 words (random letter words of length 1-25 with multiples of 10 weighted up, apostrophes inside, keywords and aliases in any case, non-ASCII letters), 's/'re suffixes (stacked and \
-         orphan ones hung on a comment), hyphenated parts, periods (several, leading, trailing) and commas anywhere, rendered with random spacing/noise/comments; destination a variable, a pronoun, an array element or `rock X like`. \
+         orphan ones hung on a comment), hyphenated parts, periods (several, leading, trailing) and commas anywhere, rendered with random spacing/noise/comments; 4% extreme literals of up to ~430 digits on either side of the period with runs of zero digits (values beyond 10^308, below 10^-308, subnormal, zero); destination a variable, a pronoun, an array element or `rock X like`. \
          strings: line texts of atoms incl. leading/trailing blanks, quotes, parentheses (always closed on the line), comment- and statement-looking text, punctuation, non-ASCII, followed by further lines that must survive. \
          expressions: right-hand sides that start with a literal word or -number (compared with the reference model). \
          non-trivial = >= 2 words or any of {suffix, hyphen, period, length multiple of 10, keyword, non-ASCII}; strings of >= 2 bytes; distinct by case"
@@ -237,12 +254,12 @@ impl Prop for C11 {
     }
     fn assumptions(&self) -> Vec<String> {
         vec![
-            "reference value = str::parse::<f64> (correctly rounded, std) of the decimal numeral built by the digit rule; tolerance 0 ulp for integers < 2^53 without period, else max(4, digits + 4) ulp".into(),
-            "bounded to <= 300 digits on each side of the period (finding F12) and to texts whose quotes/parentheses are closed on the line (finding F11)".into(),
+            "reference value = str::parse::<f64> (correctly rounded, std) of the decimal numeral built by the digit rule; tolerance 0 ulp for integers < 2^53 without period, else 16 ulp (measured maximum in the ulp: labels)".into(),
+            "poetic strings are bounded to texts whose quotes/parentheses are closed on the line (finding F11, outside the property's quantifier)".into(),
         ]
     }
     fn tape_len(&self, _t: Tier) -> usize {
-        900
+        1900
     }
     fn cases(&self, t: Tier) -> usize {
         t.pick(100_000, 4_000_000)
@@ -256,8 +273,9 @@ impl Prop for C11 {
             2 => Dest::Element(n),
             _ => Dest::Rock(n),
         };
-        match t.weighted(&[60, 28, 12]) {
+        match t.weighted(&[56, 28, 12, 4]) {
             0 => Case::Number { dest, elems: literal(t, PoeticCfg { orphan_suffix: true, max_digits_each_side: 300 }), spelling },
+            3 => Case::Number { dest, elems: extreme_literal(t), spelling: spelling.into_iter().take(6).collect() },
             1 => {
                 let text = string_text(t);
                 let following = (0..t.pick(3)).map(|i| format!("after{}", i)).collect();
@@ -310,7 +328,7 @@ impl Prop for C11 {
     fn expected_labels(&self) -> Vec<String> {
         [
             "number", "string", "expression_rhs", "period", "several_periods", "hyphen", "apostrophe_suffix", "apostrophe_in_word", "length_multiple_of_10", "keyword_as_word", "non_ascii",
-            "orphan_suffix", "more_than_17_digits", "more_than_100_digits", "exact_integer", "inexact_by_some_ulp", "rock_like", "pronoun_dest", "element_dest", "leading_blank", "trailing_blank",
+            "orphan_suffix", "more_than_308_digits", "value_overflows_to_infinity", "subnormal_value", "long_zero", "more_than_17_digits", "more_than_100_digits", "exact_integer", "inexact_by_some_ulp", "rock_like", "pronoun_dest", "element_dest", "leading_blank", "trailing_blank",
             "quotes", "parentheses", "empty_text",
         ]
         .iter()
